@@ -18,20 +18,25 @@
    counts come from the document; n = number of bytes + 1 suffices).  The run ends at the first exception of
    the reader (result None of the run), or with Some None where the scope classes throw an exception of their own
    (unsupported key type).
-   FRAGMENT (frag_reqs h = true): RGet (any key kind, any target), RObj, RArr with element requests AGet / AObj /
-   AArr / AEnd, RVisit (VisitKeys without a callback), REach (VisitKeys with a callback that, under the visited
-   key, does nothing / loads a value / opens an object / opens an array: VSkip / VGet / VObj / VArr — what
-   SerializeMapImpl does), all nested to any depth and in any order — repeated keys, absent keys, keys requested
-   out of order (the wrap-around with its rewind), arrays left partly read included.  NOT re-expressed as a client:
-   byte arrays (RBin / ABin / VBin / VBinArr) and the guarded request (ATry).  AThrow / VThrow (the caller's own code
-   throws) are admitted: the client stops there with Some None; an error-free history never executes one.
+   FRAGMENT (frag_reqs h = true): THE WHOLE HISTORY LANGUAGE EXCEPT THE GUARDED REQUEST ATry: RGet (any key kind, any
+   target), RObj, RArr with element requests AGet / AObj / AArr / ABin / AEnd, RBin (byte array: the binary scope and n
+   byte loads), RVisit (VisitKeys without a callback), REach (VisitKeys with a callback that, under the visited key,
+   does nothing / loads a value / opens an object / an array / a byte array / a byte array with the array fallback:
+   VSkip / VGet / VObj / VArr / VBin / VBinArr — what SerializeMapImpl does), all nested to any depth and in any
+   order — repeated keys, absent keys, keys requested out of order (the wrap-around with its rewind), arrays and byte
+   arrays left partly read included.  AThrow / VThrow (the caller's own code throws) are admitted: the client stops
+   there with Some None; an error-free history never executes one.  NOT re-expressed as a client: ATry (try { } catch
+   (OutOfRange) around an element request; no library code uses it since 9e55af6).
    scope_client_arr n h: the same for a history h on a root ARRAY (OpenArrayScope at the root).
    Further operations of the client:
      OpenArrayScope            RdArr
      array element requests    CheckEnd (no reader call), then the typed read / RdMap / RdArr
      ~CMsgPackReadArrayScope   one RdSkip per remaining element
      VisitKeys                 ResetKey, SetPosition(mStartPos), then per member ReadKey, the callback's keyed request
-                               (the key is current: no search), ResetKey (= RdSkip when the value was not consumed) *)
+                               (the key is current: no search), ResetKey (= RdSkip when the value was not consumed)
+     OpenBinaryScope           RdType; a binary: RdBin, then per byte load CheckEnd (no reader call) and RdByte;
+                               anything else: declined, nothing consumed
+     ~CMsgPackReadBinaryScope  one RdByte per remaining byte *)
 From BS Require Import Base MpSpec MpModel StreamIStream StreamSpec StreamModel StreamBsrProofs MpStreamModel MpStreamProofs.
 From BS Require Import MpLemmas MpReader MpTyped MpScopeSpec MpScopeModel MpScopeLemmas MpScopeTyped MpScopeProofs MpScopeRefine MpScopeClient.
 Local Open Scope N_scope.
@@ -167,10 +172,22 @@ Proof.
 Qed.
 Print Assumptions T_C03s_stream_example.
 
+(* ... and with a byte array: ex_prog of Properties_C03.v (T_C03 example: a byte array left partly read first, an array
+   left partly read, an absent key, VisitKeys in a child, a repeated key) over the same stream: 84 reader calls *)
+Example T_C03s_stream_example_bytes :
+  frag_reqs ex_prog = true /\
+  match mps_client_bsr no_narrow id_widen 8 (stream_of ex_doc true) 100 skip_all (scope_client 25 ex_prog) with
+  | Ok (tr, res) =>
+    res = Some (Some (KOpen :: [KOpen; KByte 1; KClose; KOpen; KVal (MpScopeSpec.VInt 1); KIsEnd false; KClose; KFalse;
+                                KOpen; KKeys [KStr [0x78]]; KClose; KVal (MpScopeSpec.VInt 5); KFalse] ++ [KClose], 23, false)) /\
+    length tr = 84%nat
+  | Fault => False
+  end.
+Proof. split; [vm_compute; reflexivity|]. vm_compute. split; reflexivity. Qed.
+Print Assumptions T_C03s_stream_example_bytes.
+
 (* NOT stated here:
-   - byte arrays (RBin / ABin / VBin / VBinArr) and guarded requests (ATry) as a client:
-     for those the stream reader under the scopes is tied to the scope model by the correspondence runs (kinds s, S
-     of C03) only;
+   - the guarded request ATry as a client;
    - histories that end in an error: the client's run ends at the reader's exception; what the unwinding
      destructors do over a stream is not part of the client run (MpStreamModel.v: the run ends at the first
      exception);
